@@ -76,6 +76,11 @@ extern "C" int simk_clock_gettime(clockid_t id, struct timespec *ts)
 	shim_call(S_CLOCK);
 	uint64_t v = (id == CLOCK_MONOTONIC || id == CLOCK_MONOTONIC_COARSE || id == CLOCK_MONOTONIC_RAW ||
 		      id == CLOCK_BOOTTIME) ? u_mono() : u_real();
+	if (g_cfg.coarse_tick_ns > 0 && (id == CLOCK_MONOTONIC_COARSE || id == CLOCK_REALTIME_COARSE)) {
+		// the coarse clocks are updated once per tick of the simulated kernel (ticks counted from boot = virtual time 0)
+		uint64_t since_tick = (uint64_t)now_ns() % (uint64_t)g_cfg.coarse_tick_ns;
+		v -= since_tick;
+	}
 	ts->tv_sec = (time_t)(v / 1000000000ULL);
 	ts->tv_nsec = (long)(v % 1000000000ULL);
 	return 0;
@@ -83,7 +88,7 @@ extern "C" int simk_clock_gettime(clockid_t id, struct timespec *ts)
 extern "C" int simk_clock_getres(clockid_t id, struct timespec *ts)
 {
 	if (!in_task()) return clock_getres(id, ts);
-	if (ts) ns_to_ts(g_cfg.clock_res_ns, ts);
+	if (ts) ns_to_ts(g_cfg.coarse_tick_ns > 0 && (id == CLOCK_MONOTONIC_COARSE || id == CLOCK_REALTIME_COARSE) ? g_cfg.coarse_tick_ns : g_cfg.clock_res_ns, ts);
 	return 0;
 }
 extern "C" int simk_gettimeofday(struct timeval *tv, void *tz)
